@@ -71,7 +71,13 @@ fn mutate(t: &mut Tape, s: &MSchema) -> MSchema {
 fn crate_fp(ast: &MSchema, t: &mut Tape, ctx: &mut Ctx, tag: &str) -> Option<[u8; 8]> {
 	let via_nodes = t.chance(64);
 	let sm: Result<SchemaMut, String> = if via_nodes {
-		Ok(SchemaMut::from_nodes(to_nodes(ast)))
+		// builder API, with structurally identical unnamed sub-trees shared between parents
+		// (one node referenced several times denotes the same schema, hence the same fingerprint)
+		let mut nodes = to_nodes(ast);
+		if super::c09::share_unnamed(t, &mut nodes) > 0 {
+			ctx.label("graph:shared-unnamed-subtree");
+		}
+		Ok(SchemaMut::from_nodes(nodes))
 	} else {
 		let text = {
 			let mut sp = Speller::with_tape(t, true);
